@@ -217,3 +217,19 @@ def ref_walk_body(tmpl, body: bytes, offset: int):
             entries.append(ent)
         blocks.append((tb.name, entries))
     return blocks, pos
+
+
+def ref_rebuild_body(tmpl, walked, prefix: bytes) -> bytes:
+    """Inverse of ref_walk_body: prefix (message number + extra) + blocks from raw field bytes."""
+    body = bytearray(prefix)
+    for (bname, entries) in walked:
+        tb = tmpl.get_block(bname)
+        if tb.block_type == 2:
+            body.append(len(entries))
+        for ent in entries:
+            for var in tb.variables:
+                raw = ent[var.name]
+                if var.type.name == "MVT_VARIABLE":
+                    body += len(raw).to_bytes(var.size, "little")
+                body += raw
+    return bytes(body)
